@@ -38,6 +38,13 @@ def run_cli(text, timeout_ms, which=('cvc5', 'z3')):
                 if exe is None:
                     continue
                 cmd = [exe, '--strings-exp', '--tlimit=%d' % (secs * 1000), '-q', path]
+            elif w == 'z3-4.8':
+                # the Debian z3 (4.8.12): a different generation of the quantifier / array engines than the
+                # z3-solver wheel used in process; decides some lambda / set problems the newer one leaves open
+                exe = '/usr/bin/z3' if os.path.exists('/usr/bin/z3') else None
+                if exe is None:
+                    continue
+                cmd = [exe, '-T:%d' % secs, path]
             else:
                 exe = _which('z3-new') or _which('z3')
                 if exe is None:
@@ -62,4 +69,11 @@ def cvc5_check(solver, goal, timeout_ms):
     import z3
     text = smt2_of(solver.assertions(), [z3.Not(goal)])
     v, _w = run_cli(text, timeout_ms, which=('cvc5',))
+    return v
+
+
+def old_z3_check(solver, goal, timeout_ms):
+    import z3
+    text = smt2_of(solver.assertions(), [z3.Not(goal)])
+    v, _w = run_cli(text, timeout_ms, which=('z3-4.8',))
     return v
